@@ -58,6 +58,16 @@ CLAIMED["C03"] = (
     "Trusted: Lean kernel; standard axioms; correspondence harness; astropy ModelBoundingBox.evaluate is modelled (its comparison mirrored).",
     "Lean 4 proof over order-axiom-free model + bit-exact differential correspondence", "DESIGN.md §6 C03")
 
+CLAIMED["C13"] = (
+    "Lean 4 theorems: _toindex = floor(v+1/2) is the unique nearest pixel centre (halves up); array-index variants are the same maps "
+    "with axes reversed and entries rounded; array_shape = reversed pixel_shape after any history of assignments; wrong-length pixel_shape "
+    "rejected with state unchanged; evaluation respects declared arities (dimension counts); and soundness of astropy's separability matrix "
+    "on the transform algebra by structural induction (matrix False => the world coordinate does not change when only that pixel coordinate "
+    "changes). Tied to gwcs/api.py by exact correspondence on generated pipelines/points/histories, the matrix compared with astropy's on "
+    "every case and independence spot-checked by perturbation.",
+    "Trusted: Lean kernel; standard axioms; harness; astropy separable (modelled, compared every case). Known finding D13 (fix_inputs WCS).",
+    "Lean 4 proof (structural induction for separability) + differential correspondence", "DESIGN.md §6 C13")
+
 NOT_YET = "check not built yet in this round; will be claimed once its Lean model, theorems and correspondence run green"
 
 
